@@ -357,6 +357,16 @@ class Sym(BaseSym):
                                                      use_cvc5=False)
                 if res == 'sat':
                     res = 'unknown'      # not an identity; needs the assumptions
+            # 1b. from growing relevance-filtered subsets of the path condition (sound: fewer assumptions); only `unsat` counts
+            if res != 'unsat' and self.B.get('prove_relevance'):
+                excl = {str(var) for (_, var, _) in self.inputs.values()}
+                for sub in portfolio.relevance_subsets(list(self.space.solver.assertions()), [cond.var], excl,
+                                                       hops=self.B.get('prove_relevance_hops', (1, 2))):
+                    res, backend = portfolio.check_unsat(sub + [z3.Not(cond.var)], use_cvc5=self.B.get('prove_relevance_cvc5', False),
+                                                         timeout_s=self.B.get('prove_relevance_timeout', 10))
+                    if res == 'unsat':
+                        break
+                    res = 'unknown'
             # 2. under the path condition (sliced to the cone of influence)
             if res != 'unsat':
                 res, backend = portfolio.check_unsat(list(self.space.solver.assertions()), extra=[z3.Not(cond.var)],
